@@ -11,6 +11,9 @@ def check(ctx):
             for mode in MODES:
                 check_kernel(ctx, KE, fam, mode, backend, outputs=("MXX", "MYY", "mu_r", "mu_i"), rule="R1-trend-form")
     check_build_Q(ctx)
+    # detrending acts on a copy: a kernel that de-means a view of the record in place changes what every later bin sees
+    from ..kernels import check_inputs_untouched
+    check_inputs_untouched(ctx, rule="R4-record-untouched")
     check_dispatch(ctx, rule_prefix="R2.", want_roles=True, kaisers=(True,), roles=("x1", "x2", "starts", "L", "Q"))
     check_cache_keys(ctx, rule="R3-cache-key", about=("basis",))
     ctx.trust("L7: x - Q Q^T x annihilates span Q; reduced QR keeps span Q = span V", "L1/L2", "E5 kernel summaries")
